@@ -394,7 +394,6 @@ func zzStubRandConst() uint32 { return 0x01020304 }
 
 func zzStubNoTCPChecksum(iph *ipv4.Header, data []byte) {}
 
-
 // C20/probe-knock: one probe of any kind - a TCP SYN from a peer the sensor can answer or
 // from one it cannot (no ARP or route entry: spoofed or off-link source), a UDP datagram
 // with 0..2 payload bytes to a port without a decoder, an ICMP echo request - is handed to
